@@ -53,6 +53,7 @@ def live_devs(check, vh, module, known_devs, extra="", driver="drive-schema"):
     for k, name in enumerate(names):
         if any(f["l"] == k + 1 for f in fails):
             live[name] = known_devs[name]
+            check.known(name, known_devs[name]["text"])    # the listed finding still reproduces on this tree
         else:
             common.log("[known] witness of %s no longer fails: deviation not honoured" % name)
     return live
